@@ -16,8 +16,20 @@ META = {
 VM_ACCESSORS = ["ARR_GET", "ARR_SET", "ARR_POP", "ARR_REMOVE", "STRUCT_GET", "STRUCT_SET", "UNION_FIELD", "TUPLE_GET"]
 
 
+SC, ST, AR, SU, UN, TU, ANY = 1, 2, 4, 8, 16, 32, 3   # ANY here: scalar or string (slots the accessor only moves)
+# shapes the accessor needs (top, top-1, top-2); the remaining slots are any well-formed value
+SHAPES = {"ARR_GET": (SC, AR, ANY), "ARR_REMOVE": (SC, AR, ANY), "ARR_SET": (ANY, SC, AR), "ARR_POP": (AR, ANY, ANY),
+          "STRUCT_GET": (SU, ANY, ANY), "UNION_FIELD": (UN, ANY, ANY), "TUPLE_GET": (TU, ANY, ANY), "STRUCT_SET": (ANY, SU, ANY)}
+
+
 def vm_obligations(prop="C08"):
-    return [vmstep.step(prop, "%s.vm.%s" % (prop, op), "h_c08", op, must_have=[r"C08\.vm", r"COVER"]) for op in VM_ACCESSORS]
+    obs = []
+    for op in VM_ACCESSORS:
+        m0, m1, m2 = SHAPES[op]
+        o = vmstep.step(prop, "%s.vm.%s" % (prop, op), "h_c08", op, must_have=[r"C08\.vm", r"COVER"])
+        o["defines"].update({"VERIF_M0": m0, "VERIF_M1": m1, "VERIF_M2": m2})
+        obs.append(o)
+    return obs
 
 
 def obligations(repo):
